@@ -869,7 +869,7 @@ pub fn c06_inputs(thorough: bool, _threads: usize) -> Report {
     }
     rep.distinct_nontrivial = ok_parse + ready;
     rep.rule = format!(
-        "{} payload / payment-metadata byte strings (every string of length <= 1, {} of length 2, and the structured truncation set of C18) fed (a) as onion payload hex through serde_json::from_value::<HtlcAcceptedRequest> with extreme numeric fields and (b) as record 16 of a request handed to the real HtlcManager::handle_htlc, as forward and as final hop, forward_msat in {{0, absent, u64::MAX}}; oracle: no panic, handle_htlc ready on its first poll with a response that serialises. Non-trivial = requests that deserialise / calls that returned a response",
+        "{} payload / payment-metadata byte strings (every string of length <= 1, {} of length 2, and the structured truncation set of C18) fed (a) as onion payload hex through serde_json::from_value::<HtlcAcceptedRequest> with extreme numeric fields and (b) as record 16 of a request handed to the real HtlcManager::handle_htlc, as forward and as final hop, forward_msat in {{0, absent, u64::MAX}}; oracle: no panic, handle_htlc answers without any environment event, with a response that serialises. Non-trivial = requests that deserialise / calls that returned a response",
         inputs.len(),
         if thorough { "all 65536" } else { "2560" }
     );
